@@ -5,6 +5,7 @@ package world
 
 import (
 	"fmt"
+	"runtime"
 	"sync"
 	"time"
 )
@@ -81,6 +82,10 @@ type World struct {
 	Log      *Logger
 	Sink     *Sink
 
+	// Quiet: the logger and sink seams neither record nor park. Used by race-detector
+	// runs: every shared access of the harness inside a handler would create a
+	// happens-before edge between connection goroutines and hide their races.
+	Quiet bool
 	// LogBytes disables recording of payload bytes for large transfers when false.
 	maxEvents int
 	Overflow  bool
@@ -118,6 +123,19 @@ func (w *World) Rec(e Ev) {
 	w.Events = append(w.Events, e)
 }
 
+// Arm sets the parking sites of the run.
+func (w *World) Arm(sites []string) { w.mu.Lock(); w.armed = sites; w.mu.Unlock() }
+
+// EventsSince returns a copy of the history from index i on.
+func (w *World) EventsSince(i int) []Ev {
+	w.mu.Lock()
+	defer w.mu.Unlock()
+	if i >= len(w.Events) {
+		return nil
+	}
+	return append([]Ev(nil), w.Events[i:]...)
+}
+
 // Fault counts a fault that actually fired.
 func (w *World) Fault(kind string) { w.mu.Lock(); w.Faults[kind]++; w.mu.Unlock() }
 
@@ -147,6 +165,19 @@ func (w *World) Park(site string) {
 	w.mu.Unlock()
 	w.Rec(Ev{Actor: "park", Kind: "parked", A: int64(p.id), S: site})
 	<-p.ch
+}
+
+// QuietYield is the seam behaviour of race-detector runs: at an armed site the calling
+// goroutine yields the processor (runtime.Gosched) so that another runnable connection
+// goroutine overtakes it inside the handler. No shared state is touched: the armed list
+// is immutable in quiet runs.
+func (w *World) QuietYield(site string) {
+	for _, a := range w.armed {
+		if len(a) <= len(site) && site[:len(a)] == a {
+			runtime.Gosched()
+			return
+		}
+	}
 }
 
 // Parked lists the parked seams (id, site) in arrival order.
@@ -179,7 +210,9 @@ func (w *World) Release(i int) {
 // run so that liveness can be judged with no seam held).
 func (w *World) Disarm() {
 	w.mu.Lock()
-	w.armed = nil
+	if !w.Quiet {
+		w.armed = nil
+	}
 	l := w.parkedL
 	w.parkedL = nil
 	w.mu.Unlock()
